@@ -487,6 +487,7 @@ func c01(c *ctx) {
 	for k := 0; k < 2; k++ {
 		c01creatorLost(c, k)
 	}
+	c01routeLong(c, 0)
 	c01copyTruncation(c, 0)
 	nsys := 6
 	if c.thorough() {
